@@ -202,7 +202,13 @@ func (m *mux) ensureContext(r *http.Request) *chi.Context {
 	// the pattern and the URL params in it a first time, and chi would then
 	// append them a second time when it routes the request.
 	ctx = chi.NewRouteContext()
-	if !m.Router.Match(ctx, r.Method, r.URL.Path) {
+	// Match the path chi is going to route on: the escaped path when there is
+	// one, so that an escaped slash is not taken for a segment separator.
+	path := r.URL.RawPath
+	if path == "" {
+		path = r.URL.Path
+	}
+	if !m.Router.Match(ctx, r.Method, path) {
 		return nil // route not handled by chi
 	}
 	return ctx
